@@ -2,7 +2,7 @@
 import os
 
 from . import core
-from .rules import stdio, cert, mark, exact, optstore, inval, idx, atomic, own, tokens, idxclass, copy, pair, structfree, buf, div, counter, sentinel, appendinit
+from .rules import stdio, cert, mark, exact, optstore, inval, idx, atomic, own, tokens, idxclass, copy, pair, structfree, buf, div, counter, sentinel, appendinit, verdict, basismap, zerotol, escape, lenclass, djsym
 from .effects import Effects
 
 FIX = os.path.join(os.path.dirname(os.path.abspath(__file__)), "fixtures")
@@ -127,8 +127,19 @@ def cert_scopes(prog, kind):
     return {"CERT": {"roots": roots, "closure": False}, "TESTS": {"roots": roots[:1], "closure": True}}
 
 
+_EFF = {}
+
+
+def shared_eff(prog):
+    if id(prog) not in _EFF:
+        _EFF.clear()
+        _EFF[id(prog)] = Effects(prog)
+    return _EFF[id(prog)]
+
+
 def c01_rules():
     return [
+        lambda prog, tier: zerotol.run(prog, shared_eff(prog), "simplex"),
         lambda prog, tier: cert.run(prog, want=("OPT",)),
         lambda prog, tier: mark.run(prog, which=("QSexact_optimal_test",)),
         lambda prog, tier: optstore.run(prog),
@@ -159,6 +170,7 @@ def c05_rules():
         lambda prog, tier: inval.run_gate(prog, eff(prog)),
         lambda prog, tier: inval.run_invalfn(prog),
         lambda prog, tier: inval.run_coupd(prog, eff(prog)),
+        lambda prog, tier: verdict.run(prog),
     ]
 
 
@@ -390,6 +402,63 @@ PROPS = {
                       "reason per site) and the by-construction table of sa/rules/div.py; dominance uses the live CFG",
         "not_decided": "absence of loops that do not consume input (seed C11/3), internal consistency of a returned problem, negative entries "
                        "of the raw->lp index maps (seed C11/1)",
+    },
+    "C12": {
+        "rules": [lambda prog, tier: verdict.run(prog),
+                  lambda prog, tier: basismap.run(prog),
+                  lambda prog, tier: djsym.run(prog),
+                  lambda prog, tier: zerotol.run(prog, shared_eff(prog), "simplex"),
+                  lambda prog, tier: counter.run(prog),
+                  lambda prog, tier: idxclass.run(prog, scope_units=("basis_mpq.c", "lib_mpq.c", "qsopt_mpq.c", "qsopt_ex/exact.c")),
+                  lambda prog, tier: lenclass.run(prog, scope_units=("basis_mpq.c", "lib_mpq.c", "qsopt_mpq.c", "qsopt_ex/exact.c", "lpdata_mpq.c")),
+                  lambda prog, tier: escape.run(prog)],
+        "technique": "must-precede path-sensitive dataflow on clang::CFG for the producer/consumer chain of the exact verdict functions; "
+                     "extraction and comparison of the two basis status translation tables from switch/equality-selected constant stores; "
+                     "value-class (zero / non-zero) analysis of every tolerance location with dead-write elimination; guard dominance for "
+                     "the basis counters; loop-local index-space typing",
+        "explanation": "Decides four structural clauses of C12: (R-VERDICT) in QSexact_basis_status / _optimalstatus / _dualstatus every "
+                       "computation is preceded on all paths by the computations whose result it consumes (rebuild internal lp -> load -> "
+                       "factor -> piz -> dz / xbz -> feasibility check -> status values -> objective), the feasibility checks receive the "
+                       "exact zero constant as tolerance, and *result = 1 is stored only under the status flag that means it; "
+                       "(R-BASISMAP) the export table of ILLlib_getbasis and the import table of ILLbasis_load, extracted from the code, are "
+                       "total on their status sets and mutually inverse (non-ranged rows: UPPER collapses to LOWER only on export); "
+                       "(R-ZEROTOL) every deciding tolerance of the rational simplex has value class zero; (R-CNT) basic / non-basic "
+                       "counters are bounded before they index baz / nbaz (one basic variable per row on import); (R-IDXCLASS) basis and "
+                       "solution arrays are subscripted in their own index space; (R-LENCLASS) they are allocated / block-copied with their "
+                       "own dimension (the hand-over of the returned basis); (R-FREEBOTH) in every dual feasibility classifier whatever is "
+                       "done for an at-lower or at-upper non-basic column is also reachable for a free column (finite enumeration of the "
+                       "status values through the classifier's CFG); (R-EXTORDER) no internal column number leaves through an int "
+                       "out-parameter.",
+        "level_text": "All-paths / all-sites guarantee for the listed clauses, each a necessary condition of C12: dropping a producer, "
+                      "judging at a non-zero tolerance, publishing a verdict under the wrong flag, breaking one entry of either status "
+                      "table, or mixing row / structural / internal-column indices is reported. It does not decide that the exact linear "
+                      "algebra inside factor / piz / dz / xbz is right (see C13) nor that ILLfct_check_pfeasible / _dfeasible classify "
+                      "every (status, sign) combination correctly beyond the free-column symmetry of R-FREEBOTH.",
+        "level_note": "trusted: frozen producer/consumer table (sa/rules/verdict.py DEPS), frozen list of deciding tolerances "
+                      "(sa/rules/zerotol.py), host-supplied arguments of installed-header functions are outside the value-class analysis",
+        "not_decided": "numerical identity of the basic solution with the reported one; the hand-over of the returned basis beyond index "
+                       "spaces; warm-start confirmation",
+    },
+    "C13": {
+        "rules": [lambda prog, tier: zerotol.run(prog, shared_eff(prog), "factor"),
+                  lambda prog, tier: escape.run(prog),
+                  lambda prog, tier: idxclass.run(prog, scope_units=("lib_mpq.c", "qsopt_mpq.c"), rule="R-IDXCLASS")],
+        "technique": "value-class (zero / non-zero / unknown) fixpoint over GMP-number locations with interprocedural parameter binding and "
+                     "dead-write elimination on the CFG",
+        "explanation": "Decides one structural clause of C13: the two tolerances of the LU work record (fzero_tol, szero_tol), and every "
+                       "location whose value can flow into them (SZERO_TOLER, PIVZ_TOLER, the exact zero constant, the ztoler parameters of "
+                       "the row-solve helpers), only ever receive values of class zero in the rational instantiation, so no entry of L, U "
+                       "or a solve result can be dropped as 'small' - whether or not the number macros consult the tolerance.  Also decides the "
+                       "'basis order reported alongside' clause structurally (R-EXTORDER): the basis order handed out is translated through "
+                       "an inverse map populated as M[structmap[j]] = j, M[rowmap[i]] = nstruct + i, no internal column number reaches an "
+                       "int out-parameter, and the tableau / binv row extraction subscripts every array in its own index space (R-IDXCLASS).",
+        "level_text": "All-writes / all-sites guarantee for two necessary conditions (exact zero tests in the LU code; external numbering of "
+                      "the basis order and tableau rows). The algebra of the "
+                      "factorization, the Forrest-Tomlin updates and the index bookkeeping of the 5600-line LU code are NOT decided by "
+                      "this check: no sound static argument in reach bounds them (seeds C13/1, C13/2 are missed by construction).",
+        "level_note": "trusted: the GMP transfer table of sa/rules/zerotol.py; values supplied by a host program through "
+                      "ILLfactor_set_factor_dparam are outside the analysis",
+        "not_decided": "B^-1 B = I itself; singular detection; update histories; tableau row assembly",
     },
     "C20": {
         "rules": [lambda prog, tier: stdio.run(prog)],
